@@ -156,6 +156,19 @@ func runFileCase(res *Result, s Step) {
 		for _, st := range fs.Images(path) {
 			check(st, fmt.Sprintf("a power loss after %s at call #%d", s.Reason, s.Batch))
 		}
+		// a write that reported failure has cleaned up after itself: nothing but the config file is left in
+		// its directory (unless the error hit the very call that removes the temporary file)
+		if werr != nil && fs.FailedOp != "" && fs.FailedOp != "remove" {
+			if ents, err := os.ReadDir(filepath.Dir(path)); err == nil {
+				for _, e := range ents {
+					if e.Name() != filepath.Base(path) {
+						v := viol("C20.file.stray", "C20,C18", "%s: a write that failed (%s at call #%d, %s) left %q in the config directory", s.Route, s.Reason, s.Batch, fs.FailedOp, strings.SplitN(e.Name(), ".tmp-", 2)[0]+".tmp-*")
+						v.Loc = loc
+						res.Violations = append(res.Violations, v)
+					}
+				}
+			}
+		}
 	}
 }
 
@@ -197,10 +210,24 @@ func init() {
 		Enum:       EnumFileCases,
 		Level:      "fault_enumeration",
 		NonTrivial: func(p *Program, r *Result) bool { return r.Probes["file.image"] > 0 },
-		Rule:       "W-file, exhaustive: writeFileAtomic of app and mcp (and mcp rollbackConfigFile), with and without a previous file: a crash before every verifos call x every post-crash image (kill; power loss with any prefix of unsynced directory operations, unsynced file data old/new/torn), and EIO/ENOSPC/EACCES injected at every call; oracle: the config path holds exactly the complete old or the complete new bytes; distinct = (implementation, fault kind, call index, previous-file) cases that produced at least one image",
+		Rule:       "W-file, exhaustive: writeFileAtomic of app and mcp (and mcp rollbackConfigFile), with and without a previous file: a crash before every verifos call x every post-crash image (kill; power loss with any prefix of unsynced directory operations, unsynced file data old/new/torn), and EIO/ENOSPC/EACCES injected at every call; oracle: the config path holds exactly the complete old or the complete new bytes, and a write that reported failure leaves no other file in the directory; distinct = (implementation, fault kind, call index, previous-file) cases that produced at least one image",
 		RealStub: map[string]string{
 			"app.writeFileAtomic/syncDir, mcp.writeFileAtomic/syncDir/rollbackConfigFile": "real (os calls rerouted to verifos by the check-time rewrite)",
 			"file system durability": "simulated (simfs journal: data volatile until File.Sync, directory entries volatile until the directory is synced)",
+		},
+		Quick: 1, Thorough: 1,
+	})
+	Register(&CheckSpec{
+		Prop: "C20", World: "file",
+		Gen:        nil,
+		Run:        RunFileProgram,
+		Enum:       EnumFileCases,
+		Level:      "other",
+		NonTrivial: func(p *Program, r *Result) bool { return r.Probes["file.image"] > 0 },
+		Rule:       "W-file, exhaustive (the config-writing primitive of the MCP tools and of the management API): EIO/ENOSPC/EACCES injected at every file-system call and a crash before every call; confinement: only the configured path and its temporary sibling in the same directory are ever touched, and a write that reported failure leaves nothing but the config file in that directory (unless the error hit the call that removes the temporary file)",
+		RealStub: map[string]string{
+			"app.writeFileAtomic/syncDir, mcp.writeFileAtomic/syncDir/rollbackConfigFile": "real (os calls rerouted to verifos by the check-time rewrite)",
+			"file system durability": "simulated (simfs journal)",
 		},
 		Quick: 1, Thorough: 1,
 	})
